@@ -1,6 +1,6 @@
 (* Props_C07.v — the property theorems for C07 and nothing else.
    C07: "A scan cursor is a stable, memory-safe snapshot while the store moves under it". *)
-From Coq Require Import NArith ZArith List Bool.
+From Coq Require Import NArith ZArith List Bool Arith.
 From Blue Require Import Cursor.Iface Cursor.Ref Cursor.Bounds Cursor.Pruning Cursor.Spec Cursor.Proofs_Ref
   Snap.Model Snap.ProofsSafe Snap.ProofsLeaf Snap.ProofsGrow Snap.ProofsScan Snap.ProofsStable.
 Import ListNotations.
@@ -41,6 +41,17 @@ Theorem C07_fresh_scan_is_reference_cursor : forall fuel lo hi t (mems : list (N
   scan_wf lo hi (map snd mems) v -> (total_size (map snd mems) v + 2 <= fuel)%nat ->
   refines (xcur fuel scan_depth) (scan_new fuel lo hi t mems v) (scan_list lo hi t (map snd mems) v) (-1).
 Proof. exact scan_new_refines. Qed.
+
+(* the hypotheses about the store at scan-open are decidable; the check evaluates this boolean (and
+   compares the composed specification with the contents-based `scan_spec`) at every scan it opens
+   on the real store *)
+Theorem C07_open_hypotheses_checkable : forall c s lo hi, open_wfb c s lo hi = true ->
+  scan_wf lo hi (map (look_of s) (open_mems s)) (cur_levels s) /\
+  (total_size (map (look_of s) (open_mems s)) (cur_levels s) + 2 <= cf_fuel c)%nat.
+Proof.
+  intros c s lo hi H. unfold open_wfb in H. apply andb_prop in H. destruct H as [H1 H2].
+  split; [now apply scan_wfb_ok|now apply Nat.leb_le].
+Qed.
 
 (* In the machine: a cursor opened after ANY history es1 and then held across ANY further events
    es2 - rollovers, flush completions (dropping the memtable it iterates), installs of arbitrary
